@@ -167,18 +167,19 @@ Theorem C15M_board_function : forall seed seed' L W p m fd,
 Proof.
   intros seed seed' L W p m fd E. unfold gen_rnd_board_mt, seed_Z.
   replace (Z.abs_N seed') with (Z.abs_N seed); [reflexivity|].
-  rewrite <- (Zabs2N.inj_abs seed), <- (Zabs2N.inj_abs seed'). now rewrite E.
+  apply N2Z.inj. rewrite !N2Z.inj_abs_N. exact E.
 Qed.
 Print Assumptions C15M_board_function.
 
 (** * Non-vacuity: the model computes what CPython computes *)
 
 (* random.seed(0); random.random() == 0.8444218515250481 == 0x1.b0580f98a7dbep-1
-   == 7605875871743422 * 2^-53 *)
+   == 7605875871743422 * 2^-53  ([mkf m e] is the binary64 number m * 2^e; float literals need
+   PrimFloat imported, which this file avoids so that Print Assumptions prints qualified names) *)
 Example C15M_seed0_random :
-  fst (random (seed_Z 0)) = 0x1.b0580f98a7dbep-1%float /\
+  fst (random (seed_Z 0)) = mkf 7605875871743422 (-53) /\
   fdecomp (fst (random (seed_Z 0))) = (7605875871743422, -53)%Z /\
-  random_Q (seed_Z 0) == 7605875871743422 # 9007199254740992.
+  (random_Q (seed_Z 0) == 7605875871743422 # 9007199254740992)%Q.
 Proof. vm_compute. repeat split; reflexivity. Qed.
 
 (* the first three 32-bit outputs (random.getrandbits(32)) for seeds 0, 1, 42 and 2**40+5 *)
@@ -195,9 +196,9 @@ Proof. vm_compute. repeat split; reflexivity. Qed.
 (* random.seed(1).random() = 0.13436424411240122, seed 42: 0.6394267984578837,
    seed 2**40+5: 0.5043802970418443 *)
 Example C15M_first_randoms :
-  fst (random (seed_Z 1)) = 0x1.132d8f91b7584p-3%float /\
-  fst (random (seed_Z 42)) = 0x1.4762f307200c5p-1%float /\
-  fst (random (seed_Z (2 ^ 40 + 5))) = 0x1.023e2261153dcp-1%float.
+  fst (random (seed_Z 1)) = mkf 4840982077732228 (-55) /\          (* 0x1.132d8f91b7584p-3 *)
+  fst (random (seed_Z 42)) = mkf 5759444582531269 (-53) /\         (* 0x1.4762f307200c5p-1 *)
+  fst (random (seed_Z (2 ^ 40 + 5))) = mkf 4543053835621340 (-53).  (* 0x1.023e2261153dcp-1 *)
 Proof. vm_compute. repeat split; reflexivity. Qed.
 
 (* random.seed(0); random.choices([0,1,2,3],[0.1,0.5,0.1,0.3],k=8) == [3,3,1,1,1,1,3,1];
@@ -214,15 +215,16 @@ Example C15M_choices_randrange :
 Proof. vm_compute. reflexivity. Qed.
 
 (* gen_rnd_board(0, 3, 3, 0.3, 6, True) and (..., False) of the repository *)
+Definition p03 : PrimFloat.float := mkf 5404319552844595 (-54).   (* 0.3 = 0x1.3333333333333p-2 *)
 Example C15M_board_seed0 :
-  gen_rnd_board_mt 0 3 3 0x1.3333333333333p-2%float 6 true =
+  gen_rnd_board_mt 0 3 3 p03 6 true =
     Ok ([[3; 3; 3]; [0; 3; 3]; [3; 1; 2]], [[0; 1; 0]; [0; 1; 0]; [1; 0; 0]]%Z, [[0; 1; 0]; [0; 0; 0]; [0; 1; 0]]) /\
-  gen_rnd_board_mt 0 3 3 0x1.3333333333333p-2%float 6 false =
+  gen_rnd_board_mt 0 3 3 p03 6 false =
     Ok ([[2; 2; 1]; [1; 2; 1]; [1; 0; 1]], [[0; 1; 0]; [0; 1; 0]; [1; 0; 0]]%Z, [[0; 1; 0]; [0; 0; 0]; [0; 1; 0]]).
 Proof. vm_compute. split; reflexivity. Qed.
 
 (* the other outcomes exist: an empty forced-down row, and max_reward = 1023 *)
 Example C15M_board_errors :
-  gen_rnd_board_mt 0 2 0 0x1.3333333333333p-2%float 6 true = ValueErr "empty range in randrange(0, 0)" /\
-  gen_rnd_board_mt 0 1 1 0x1.3333333333333p-2%float 1023 false = Crash "OverflowError".
+  gen_rnd_board_mt 0 2 0 p03 6 true = ValueErr "empty range in randrange(0, 0)" /\
+  gen_rnd_board_mt 0 1 1 p03 1023 false = Crash "OverflowError".
 Proof. vm_compute. split; reflexivity. Qed.
